@@ -105,7 +105,7 @@ def replay(case):
                 res.append(np.sqrt(rr))
             if any(res[k + 1] > res[k] * (1 + 1e-9) + 1e-9 * max(1.0, float(np.linalg.norm(y))) for k in range(2)):
                 out.append(('arr:descent', 'residual increases with the number of sweeps: %r' % (res,)))
-            if np.max(np.abs(contract(guess.cores) - gval)) > 1e-12:
+            if np.max(np.abs(contract(guess.cores) - gval)) > 1e-9 * max(1.0, float(np.max(np.abs(gval)))):
                 out.append(('arr:guess_changed', 'the initial guess was modified'))
     except Exception as e:
         out.append(('%s:exception:%s' % (task, type(e).__name__), '%r (cfg d=%d m=%d)' % (e, cfg['d'], m)))
